@@ -68,6 +68,7 @@ type PipelineHandler struct {
 	exporter       drivers.Driver
 	pipelineConfig PipelineHandlerConfig
 	logger         logging.Logger
+	drained        chan struct{}
 }
 
 func (p *PipelineHandler) Run(ctx context.Context, ingestedLogs chan uint64) {
